@@ -127,9 +127,9 @@ class LoopProg:
         return is_call(e, name="get_scheduling_loop") and not e.args and not e.keywords
 
     def key(self, e, env):
-        """loop.task_key(task), or a local that was assigned it"""
-        if isinstance(e, ast.Name) and e.id in env.get("keyfns", {}):
-            return env["keyfns"][e.id]
+        """loop.task_key(task), or a local holding it"""
+        if isinstance(e, ast.Name) and e.id in env.get("keyvars", {}):
+            return env["keyvars"][e.id]
         if is_call(e, attr="task_key") and self.is_loop(e.func.value, env) and len(e.args) == 1 \
                 and isinstance(e.args[0], ast.Name) and e.args[0].id in env["keys"]:
             return env["keys"][e.args[0].id]
@@ -165,6 +165,13 @@ class LoopProg:
             if self.is_loop(v, env):
                 env["loops"].add(name)
                 return self.block(rest, env, ind)
+            if dotted(getattr(v, "func", None)) == "asyncio.current_task" and not v.args:
+                env["me"] = set(env.get("me", ())) | {name}
+                return self.block(rest, env, ind)
+            if is_call(v, attr="task_key"):
+                env.setdefault("keyvars", {})
+                env["keyvars"] = {**env["keyvars"], name: self.key(v, env)}
+                return self.block(rest, env, ind)
             if is_call(v, attr="queue_find") and self.is_loop(v.func.value, env):
                 kw = kwargs(v)
                 args = list(v.args)
@@ -193,17 +200,6 @@ class LoopProg:
                 self.used_cb = True
                 env["hs"][name] = "h"
                 return self._opt_step(self.ops["insert"](env["q"], "h"), rest, env, ind)
-            if isinstance(v, ast.Constant) and isinstance(v.value, int) and not isinstance(v.value, bool) and v.value >= 0:
-                env["nats"][name] = str(v.value)          # a named position constant
-                return self.block(rest, env, ind)
-            if isinstance(v, ast.Name) and v.id in env["loops"]:
-                env["loops"].add(name)                    # alias of the scheduling loop
-                return self.block(rest, env, ind)
-            if is_call(v, attr="task_key"):
-                # key = loop.task_key(task): a hoisted local naming the key function
-                env["keyfns"] = dict(env.get("keyfns", {}))
-                env["keyfns"][name] = self.key(v, env)
-                return self.block(rest, env, ind)
             raise Unsupported(f"assignment {ast.dump(v)[:70]}")
         if isinstance(s, ast.If):
             t = s.test
@@ -211,20 +207,20 @@ class LoopProg:
             if isinstance(t, ast.Compare) and dotted(t.left) == "sys.version_info" and len(t.ops) == 1 \
                     and isinstance(t.ops[0], ast.GtE):
                 return self.block(s.body + rest, env, ind)
-            # truth / None tests of the Optional handle a queue_find returned:
-            #   `not h`, `h is None` (body = the None case)  |  `h`, `h is not None` (body = the handle case)
-            hname, body_is_none = None, None
-            if isinstance(t, ast.UnaryOp) and isinstance(t.op, ast.Not) and isinstance(t.operand, ast.Name):
-                hname, body_is_none = t.operand.id, True
-            elif isinstance(t, ast.Name):
-                hname, body_is_none = t.id, False
+            # a test of an Optional[Handle]: `not h` / `h is None` (none branch = body), `h` / `h is not None`
+            hname = none_is_body = None
+            if isinstance(t, ast.UnaryOp) and isinstance(t.op, ast.Not) and isinstance(t.operand, ast.Name) \
+                    and t.operand.id in env["hopt"]:
+                hname, none_is_body = t.operand.id, True
+            elif isinstance(t, ast.Name) and t.id in env["hopt"]:
+                hname, none_is_body = t.id, False
             elif isinstance(t, ast.Compare) and len(t.ops) == 1 and isinstance(t.ops[0], (ast.Is, ast.IsNot)) \
-                    and isinstance(t.left, ast.Name) and is_none(t.comparators[0]):
-                hname, body_is_none = t.left.id, isinstance(t.ops[0], ast.Is)
-            if hname is not None and hname in env["hopt"]:
+                    and isinstance(t.left, ast.Name) and t.left.id in env["hopt"] and is_none(t.comparators[0]):
+                hname, none_is_body = t.left.id, isinstance(t.ops[0], ast.Is)
+            if hname is not None:
                 name = hname
                 hv = self.fresh("h")
-                nb, sb = (s.body, s.orelse) if body_is_none else (s.orelse, s.body)
+                nb, sb = (s.body, s.orelse) if none_is_body else (s.orelse, s.body)
                 none_branch = self.block(nb + ([] if exits(nb) else rest), env, ind + "  ")
                 env2 = {k: (dict(v) if isinstance(v, dict) else v) for k, v in env.items()}
                 env2["hs"][name] = hv
@@ -315,7 +311,8 @@ class LoopProg:
         """the descriptor of a callback handed to call_pos"""
         if isinstance(f, ast.Name) and f.id == "task_reinsert" and len(args) == 2:
             t, p = args
-            if dotted(getattr(t, "func", None)) == "asyncio.current_task" and not t.args:
+            if (dotted(getattr(t, "func", None)) == "asyncio.current_task" and not t.args) or \
+                    (isinstance(t, ast.Name) and t.id in env.get("me", ())):
                 return f"Sched.HK.reins me {self.nat(p, env)}"
         raise Unsupported(f"callback {ast.dump(f)[:60]}")
 
@@ -445,6 +442,8 @@ class Delegation:
     def is_queue(self, e, kind):
         """does `e` denote the ready queue of this class?"""
         d = dotted(e)
+        if d is not None and getattr(self, "qaliases", {}).get(d) == kind:
+            return True
         if kind == "deque":
             if d in ("self._queue", "self._ready"):
                 return True
@@ -472,10 +471,17 @@ class Delegation:
         if m is None:
             raise Unsupported(f"{self.cls.name}.{name} not found")
         aliases = set()
+        self.qaliases = {}
         body = body_no_doc(m)
-        while len(body) > 1 and isinstance(body[0], ast.Assign) and isinstance(body[0].targets[0], ast.Name) \
-                and self.is_loop_expr(body[0].value, aliases):
-            aliases.add(body[0].targets[0].id)
+        while len(body) > 1 and isinstance(body[0], ast.Assign) and isinstance(body[0].targets[0], ast.Name):
+            if self.is_loop_expr(body[0].value, aliases):
+                aliases.add(body[0].targets[0].id)
+            elif self.is_queue(body[0].value, "deque"):
+                self.qaliases[body[0].targets[0].id] = "deque"
+            elif self.is_queue(body[0].value, "prio"):
+                self.qaliases[body[0].targets[0].id] = "prio"
+            else:
+                break
             body = body[1:]
         if len(body) != 1:
             raise Unsupported(f"{self.cls.name}.{name}: more than one statement")
@@ -654,26 +660,35 @@ def gen_get_priority(fn):
         if isinstance(s, ast.Assign) and isinstance(s.targets[0], ast.Name) and is_call(s.value, attr="task_from_handle") \
                 and dotted(s.value.func.value) == "self" and len(s.value.args) == 1 and dotted(s.value.args[0]) == hn:
             return block(rest, {**env, "opt": {**env["opt"], s.targets[0].id: "taskOf"}}, ind)
-        if isinstance(s, ast.If) and isinstance(s.test, ast.Compare) and isinstance(s.test.ops[0], ast.IsNot) \
-                and isinstance(s.test.left, ast.Name) and s.test.left.id in env["opt"] and is_none(s.test.comparators[0]) \
-                and not s.orelse:
+        if isinstance(s, ast.If) and isinstance(s.test, ast.Compare) and isinstance(s.test.ops[0], (ast.Is, ast.IsNot)) \
+                and isinstance(s.test.left, ast.Name) and s.test.left.id in env["opt"] and is_none(s.test.comparators[0]):
             name = s.test.left.id
             v = name + "_v"
-            nb = block(rest, env, ind + "  ")
-            sb = block(s.body + ([] if exits(s.body) else rest), {**env, "task": {**env["task"], name: v}}, ind + "  ")
+            nbody, sbody = (s.body, s.orelse) if isinstance(s.test.ops[0], ast.Is) else (s.orelse, s.body)
+            nb = block(nbody + ([] if exits(nbody) else rest), env, ind + "  ")
+            sb = block(sbody + ([] if exits(sbody) else rest), {**env, "task": {**env["task"], name: v}}, ind + "  ")
             return f"{ind}match {env['opt'][name]} with\n{ind}| none =>\n{nb}\n{ind}| some {v} =>\n{sb}"
         t = _try_attr(s)
         if t:
             tb, hb = t
             first = tb[0]
-            if isinstance(first, ast.Assign) and isinstance(first.targets[0], ast.Name) \
-                    and is_call(first.value, attr="effective_priority") and not first.value.args \
-                    and isinstance(first.value.func.value, ast.Name) and first.value.func.value.id in env["task"]:
-                tv = env["task"][first.value.func.value.id]
+
+            def eff_call(e):
+                """`X.effective_priority()` (possibly under cast(float, …)) of a known task -> its view"""
+                if is_call(e, name="cast") and len(e.args) == 2:
+                    e = e.args[1]
+                if is_call(e, attr="effective_priority") and not e.args and isinstance(e.func.value, ast.Name) \
+                        and e.func.value.id in env["task"]:
+                    return env["task"][e.func.value.id]
+                return None
+
+            hb_ = block(hb + ([] if exits(hb) else rest), env, ind + "  ")
+            if isinstance(first, ast.Assign) and isinstance(first.targets[0], ast.Name) and eff_call(first.value):
                 pn = first.targets[0].id
-                hb_ = block(hb + ([] if exits(hb) else rest), env, ind + "  ")
                 ok = block(tb[1:] + ([] if exits(tb[1:]) else rest), {**env, "rats": {**env["rats"], pn: pn + "_"}}, ind + "  ")
-                return f"{ind}match {tv} with\n{ind}| none =>\n{hb_}\n{ind}| some {pn}_ =>\n{ok}"
+                return f"{ind}match {eff_call(first.value)} with\n{ind}| none =>\n{hb_}\n{ind}| some {pn}_ =>\n{ok}"
+            if isinstance(first, ast.Return) and eff_call(first.value):
+                return f"{ind}match {eff_call(first.value)} with\n{ind}| none =>\n{hb_}\n{ind}| some p_ =>\n{ind}  p_"
         raise Unsupported(f"get_priority: statement {ast.dump(s)[:70]}")
 
     body = block(body_no_doc(fn), {"opt": {}, "task": {}, "rats": {}}, "  ")
@@ -721,6 +736,160 @@ def gen_task_reschedule(fn):
             f"  match eff with\n  | none => s\n  | some {pn}_ => (s.reschedule H isTask {pn}_).2")
 
 
+class ViewProg:
+    """Statement-level translation of code that inspects a callback object through the view
+    `CallbackView` (`__self__`, `__name__`, the name of its type):
+
+      values   cb      the callback (a parameter, or `handle._callback`)
+               obj     `callback.__self__` : `Option Nat` (`some t` = task `t`, `none` = not a Task);
+                       reading it raises AttributeError when the callback is not bound (`cb.self_ = none`)
+               optstr  `getattr(callback, "__name__", None)` : `Option String`
+               str     `type(callback).__name__`, `callback.__name__`-like strings : `String`
+      `a or b` on (optstr, str) / `if not name: name = …` : Python truthiness of `None` and `""`
+      conditions: `isinstance(obj, TaskTypes)`, `is_task_callback(cb)`, `name in TASK_CALLBACK_NAMES`,
+                  `not`, `and`, `or`, truthiness of a string
+      statements: assignments, `try: x = cb.__self__ except AttributeError: <stmts>`, `if` (guard
+                  clauses: the continuation is duplicated), `return`
+    """
+
+    def __init__(self, ret, funcs):
+        self.ret, self.funcs = ret, funcs      # ret: "bool" | "opttask"
+        self.n = 0
+
+    def fresh(self, b):
+        self.n += 1
+        return f"{b}{self.n}"
+
+    # -- values: -> (lean text, kind)
+    def val(self, e, env):
+        if isinstance(e, ast.Name) and e.id in env:
+            return env[e.id]
+        if is_call(e, name="cast") and len(e.args) == 2:
+            return self.val(e.args[1], env)
+        if isinstance(e, ast.Attribute) and e.attr == "_callback" and isinstance(e.value, ast.Name) \
+                and env.get(e.value.id, (None, None))[1] == "handle":
+            return env[e.value.id][0], "cb"
+        if is_call(e, name="getattr") and len(e.args) == 3 and is_none(e.args[2]) \
+                and isinstance(e.args[1], ast.Constant) and e.args[1].value == "__name__":
+            c, k = self.val(e.args[0], env)
+            if k == "cb":
+                return f"{c}.name", "optstr"
+        if isinstance(e, ast.Attribute) and e.attr == "__name__" and is_call(e.value, name="type") and len(e.value.args) == 1:
+            c, k = self.val(e.value.args[0], env)
+            if k == "cb":
+                return f"{c}.typeName", "str"
+        if isinstance(e, ast.Attribute) and e.attr == "__name__" and isinstance(e.value, ast.Name) \
+                and env.get(e.value.id, (None, None))[1] == "type":
+            return f"{env[e.value.id][0]}.typeName", "str"
+        if is_call(e, name="type") and len(e.args) == 1:
+            c, k = self.val(e.args[0], env)
+            if k == "cb":
+                return c, "type"
+        if isinstance(e, ast.BoolOp) and isinstance(e.op, ast.Or) and len(e.values) == 2:
+            (a, ka), (b, kb) = self.val(e.values[0], env), self.val(e.values[1], env)
+            if ka == "optstr" and kb == "str":
+                return f"(match {a} with | some n => if n = \"\" then {b} else n | none => {b})", "str"
+            if ka == "str" and kb == "str":
+                return f"(if {a} = \"\" then {b} else {a})", "str"
+        if isinstance(e, ast.Constant) and isinstance(e.value, str):
+            return '"' + e.value.replace('\\', '\\\\').replace('"', '\\"') + '"', "str"
+        raise Unsupported(f"value {ast.dump(e)[:80]}")
+
+    # -- conditions: -> Bool-valued lean text
+    def cond(self, e, env):
+        if isinstance(e, ast.Constant) and isinstance(e.value, bool):
+            return "true" if e.value else "false"
+        if isinstance(e, ast.UnaryOp) and isinstance(e.op, ast.Not):
+            return f"(!{self.cond(e.operand, env)})"
+        if isinstance(e, ast.BoolOp):
+            op = " && " if isinstance(e.op, ast.And) else " || "
+            return "(" + op.join(self.cond(v, env) for v in e.values) + ")"
+        if is_call(e, name="isinstance") and len(e.args) == 2 and dotted(e.args[1]) == "TaskTypes":
+            o, k = self.val(e.args[0], env)
+            if k == "obj":
+                return f"{o}.isSome"
+        if is_call(e) and isinstance(e.func, ast.Name) and e.func.id in self.funcs and len(e.args) == 1:
+            c, k = self.val(e.args[0], env)
+            if k == "cb":
+                return f"({self.funcs[e.func.id]} {c})"
+        if isinstance(e, ast.Compare) and len(e.ops) == 1 and isinstance(e.ops[0], (ast.In, ast.NotIn)) \
+                and dotted(e.comparators[0]) == "TASK_CALLBACK_NAMES":
+            v, k = self.val(e.left, env)
+            if k == "str":
+                t = f"(taskCallbackNames.contains {v})"
+            elif k == "optstr":
+                t = f"(match {v} with | some n => taskCallbackNames.contains n | none => false)"
+            else:
+                raise Unsupported("membership of a non-string")
+            return t if isinstance(e.ops[0], ast.In) else f"(!{t})"
+        if isinstance(e, ast.Compare) and len(e.ops) == 1 and isinstance(e.ops[0], (ast.Is, ast.IsNot)) \
+                and is_none(e.comparators[0]):
+            v, k = self.val(e.left, env)
+            if k == "optstr":
+                t = f"{v}.isSome"
+                return f"(!{t})" if isinstance(e.ops[0], ast.Is) else t
+        if isinstance(e, (ast.Name, ast.Call, ast.Attribute, ast.BoolOp)):
+            v, k = self.val(e, env)                 # truthiness of a string
+            if k == "optstr":
+                return f"(match {v} with | some n => n != \"\" | none => false)"
+            if k == "str":
+                return f"({v} != \"\")"
+        raise Unsupported(f"condition {ast.dump(e)[:80]}")
+
+    def result(self, e, env):
+        if self.ret == "bool":
+            return self.cond(e, env)
+        if e is None or is_none(e):
+            return "none"
+        v, k = self.val(e, env)
+        if k == "obj":
+            return v                                # the object bound to the callback, if it is a Task
+        raise Unsupported("returned value")
+
+    def block(self, stmts, env, ind):
+        if not stmts:
+            if self.ret == "opttask":
+                return f"{ind}none"                 # falling off the end returns None
+            raise Unsupported("a predicate may fall off its end")
+        s, rest = stmts[0], stmts[1:]
+        env = dict(env)
+        if isinstance(s, ast.Return):
+            return ind + self.result(s.value, env)
+        if isinstance(s, (ast.Assign, ast.AnnAssign)):
+            tgt = s.targets[0] if isinstance(s, ast.Assign) else s.target
+            if not isinstance(tgt, ast.Name) or s.value is None:
+                raise Unsupported("assignment target")
+            v, k = self.val(s.value, env)
+            if k in ("cb", "handle", "type"):
+                env[tgt.id] = (v, k)
+                return self.block(rest, env, ind)
+            nm = self.fresh(tgt.id + "_")
+            env[tgt.id] = (nm, k)
+            return f"{ind}let {nm} := {v}\n" + self.block(rest, env, ind)
+        if isinstance(s, ast.Try) and len(s.handlers) == 1 and not s.orelse and not s.finalbody \
+                and dotted(s.handlers[0].type) == "AttributeError" and s.handlers[0].name is None \
+                and len(s.body) >= 1 and isinstance(s.body[0], ast.Assign) and isinstance(s.body[0].targets[0], ast.Name) \
+                and isinstance(s.body[0].value, ast.Attribute) and s.body[0].value.attr == "__self__":
+            c, k = self.val(s.body[0].value.value, env)
+            if k != "cb":
+                raise Unsupported("__self__ of something that is not the callback")
+            nm = self.fresh(s.body[0].targets[0].id + "_")
+            hb = s.handlers[0].body
+            none_txt = self.block(hb + ([] if exits(hb) else rest), env, ind + "  ")
+            env2 = {**env, s.body[0].targets[0].id: (nm, "obj")}
+            tb = s.body[1:]
+            some_txt = self.block(tb + ([] if exits(tb) else rest), env2, ind + "  ")
+            return f"{ind}match {c}.self_ with\n{ind}| none =>\n{none_txt}\n{ind}| some {nm} =>\n{some_txt}"
+        if isinstance(s, ast.If):
+            c = self.cond(s.test, env)
+            then = self.block(s.body + ([] if exits(s.body) else rest), env, ind + "  ")
+            els = self.block((s.orelse + ([] if exits(s.orelse) else rest)) if s.orelse else rest, env, ind + "  ")
+            return f"{ind}if {c} = true then\n{then}\n{ind}else\n{els}"
+        if isinstance(s, ast.Pass):
+            return self.block(rest, env, ind)
+        raise Unsupported(f"statement {ast.dump(s)[:80]}")
+
+
 def gen_task_from_handle(dflt):
     # TASK_CALLBACK_NAMES = frozenset((...)) of string constants
     names = None
@@ -735,50 +904,14 @@ def gen_task_from_handle(dflt):
     if names is None:
         raise Unsupported("TASK_CALLBACK_NAMES is not a literal set of strings")
     fn = find_func(dflt, None, "is_task_callback")
-    cb = fn.args.args[0].arg
-    body = body_no_doc(fn)
-    # name = getattr(callback, "__name__", None) or type(callback).__name__ ; return name in TASK_CALLBACK_NAMES
-    ok = len(body) == 2 and isinstance(body[0], ast.Assign) and isinstance(body[0].value, ast.BoolOp) \
-        and isinstance(body[0].value.op, ast.Or) and len(body[0].value.values) == 2
-    if ok:
-        a, b = body[0].value.values
-        ok = is_call(a, name="getattr") and len(a.args) == 3 and dotted(a.args[0]) == cb \
-            and isinstance(a.args[1], ast.Constant) and a.args[1].value == "__name__" and is_none(a.args[2]) \
-            and isinstance(b, ast.Attribute) and b.attr == "__name__" and is_call(b.value, name="type") \
-            and dotted(b.value.args[0]) == cb
-        nm = body[0].targets[0].id
-        r = body[1]
-        ok = ok and isinstance(r, ast.Return) and isinstance(r.value, ast.Compare) and isinstance(r.value.ops[0], ast.In) \
-            and dotted(r.value.left) == nm and dotted(r.value.comparators[0]) == "TASK_CALLBACK_NAMES"
-    if not ok:
-        raise Unsupported("is_task_callback is no longer `name = getattr(cb, '__name__', None) or type(cb).__name__; "
-                          "return name in TASK_CALLBACK_NAMES`")
+    if len(fn.args.args) != 1:
+        raise Unsupported("is_task_callback signature")
+    itc = ViewProg("bool", {}).block(body_no_doc(fn), {fn.args.args[0].arg: ("cb", "cb")}, "  ")
     fn2 = find_func(dflt, None, "task_from_handle")
-    hn = fn2.args.args[0].arg
-    b2 = body_no_doc(fn2)
-    ok = len(b2) == 4 and isinstance(b2[0], ast.Assign) and dotted(b2[0].value) == f"{hn}._callback"
-    if ok:
-        cbn = b2[0].targets[0].id
-        t = _try_attr(b2[1])
-        ok = bool(t) and len(t[0]) == 1 and isinstance(t[0][0], ast.Assign) and dotted(t[0][0].value) == f"{cbn}.__self__" \
-            and len(t[1]) == 1 and isinstance(t[1][0], ast.Return) and is_none(t[1][0].value)
-    if ok:
-        tn = t[0][0].targets[0].id
-        i = b2[2]
-        ok = isinstance(i, ast.If) and not i.orelse and isinstance(i.test, ast.BoolOp) and isinstance(i.test.op, ast.And) \
-            and len(i.test.values) == 2
-        if ok:
-            c1, c2 = i.test.values
-            ok = is_call(c1, name="isinstance") and dotted(c1.args[0]) == tn and dotted(c1.args[1]) == "TaskTypes" \
-                and is_call(c2, name="is_task_callback") and dotted(c2.args[0]) == cbn \
-                and len(i.body) == 1 and isinstance(i.body[0], ast.Return)
-            rv = i.body[0].value if ok else None
-            if ok and is_call(rv, name="cast"):
-                rv = rv.args[1]
-            ok = ok and dotted(rv) == tn and isinstance(b2[3], ast.Return) and is_none(b2[3].value)
-    if not ok:
-        raise Unsupported("task_from_handle is no longer: callback.__self__ (AttributeError -> None); "
-                          "isinstance(task, TaskTypes) and is_task_callback(callback) -> task; None")
+    if len(fn2.args.args) != 1:
+        raise Unsupported("task_from_handle signature")
+    tfh = ViewProg("opttask", {"is_task_callback": "isTaskCallback"}).block(
+        body_no_doc(fn2), {fn2.args.args[0].arg: ("cb", "handle")}, "  ")
     lst = ", ".join('"' + n + '"' for n in names)
     return f"""/-- what `task_from_handle` / `is_task_callback` read of a handle's callback:
     `self_` = `callback.__self__` (`none` = AttributeError, `some none` = bound to something that is
@@ -792,21 +925,13 @@ structure CallbackView where
 /-- `default.TASK_CALLBACK_NAMES` -/
 def taskCallbackNames : List String := [{lst}]
 
-/-- `default.is_task_callback(callback)` -/
+/-- `default.is_task_callback(callback)`, statement by statement -/
 def isTaskCallback (cb : CallbackView) : Bool :=
-  let name_ := match cb.name with
-    | some n => if n = "" then cb.typeName else n
-    | none => cb.typeName
-  taskCallbackNames.contains name_
+{itc}
 
-/-- `default.task_from_handle(handle)` -/
+/-- `default.task_from_handle(handle)`, statement by statement (`cb` = the view of `handle._callback`) -/
 def taskFromHandle (cb : CallbackView) : Option Nat :=
-  match cb.self_ with
-  | none => none
-  | some task_ =>
-    match task_ with
-    | some t => if isTaskCallback cb then some t else none
-    | none => none
+{tfh}
 """
 
 
